@@ -45,8 +45,8 @@ Step(tool, fmt, prec, via) == [tool |-> tool, fmt |-> fmt, prec |-> prec, via |-
 
 Init ==
     \/ /\ kind = "chain"
-       /\ \E src \in {"create", "seedtext", "seednpy"}, via \in Vias :
-            /\ art = [fmt |-> IF src = "seednpy" THEN "npy" ELSE "text", via |-> via,
+       /\ \E src \in {"create", "seedtext", "seednpy", "bigtext", "bignpy"}, via \in Vias :
+            /\ art = [fmt |-> IF src \in {"seednpy", "bignpy"} THEN "npy" ELSE "text", via |-> via,
                       prec |-> IF src = "create" THEN 0 ELSE 17]
             /\ steps = <<Step(src, art.fmt, art.prec, via)>>
        /\ bound = QZero /\ folds = 0 /\ closed = FALSE
